@@ -6,6 +6,8 @@
 
 mod bits_engine;
 mod comps;
+mod guard_engine;
+mod guard_gen;
 mod containers;
 mod query_engine;
 mod sched;
@@ -167,6 +169,14 @@ fn main() {
             sched_reserve::gen(&out, threads, maxlen, shard, nshards, cap);
         }
         ("sched-reserve", "replay") => sched_reserve::replay(args.get(3).expect("ops file")),
+        ("borrow", "gen") => {
+            let seed: u64 = arg(&args, "--seed").and_then(|s| s.parse().ok()).unwrap_or(1);
+            let count: usize = arg(&args, "--count").and_then(|s| s.parse().ok()).unwrap_or(100);
+            let len: usize = arg(&args, "--len").and_then(|s| s.parse().ok()).unwrap_or(16);
+            let out = arg(&args, "--out").expect("--out DIR");
+            guard_engine::gen(&out, seed, count, len);
+        }
+        ("borrow", "replay") => guard_engine::replay(args.get(3).expect("ops file")),
         ("sched-borrow", "replay") => sched_borrow::replay(args.get(3).expect("ops file")),
         ("world", "replay") => {
             let file = args.get(3).expect("ops file");
